@@ -20,7 +20,10 @@ EXPLANATION = (
     "segments do not contribute, the trailer is one optional '/' after every kind of last segment, getRoute uses match(); (R5) "
     "routes are appended per method and tried in registration order, first match wins, None for no match / unknown method, dispatch "
     "maps that to 404; (R6) a second ?/*/+ parameter is refused with ValueError; (R7) literal text is escaped; (R9) per-router route "
-    "lists. Does not decide full language equivalence with the prose grammar (empty segments under */+ are not specified precisely)."
+    "lists. Router.getRoute is decided the same way: evaluated on a model route table whose pattern objects are stand-ins that record "
+    "each match call and answer as the scenario says (unknown method, no match, first / middle / last route matching, another "
+    "method's list); the shape rules on its loop are only the fallback when the function is outside the evaluator's fragment. "
+    "Does not decide full language equivalence with the prose grammar (empty segments under */+ are not specified precisely)."
 )
 ASSUMPTIONS = ["re semantics as documented; re.escape makes every character literal"]
 
@@ -54,6 +57,54 @@ def evaluated(ctx):
     facts = {"P": P, "fi": fi}
     _EV[key] = facts
     return facts
+
+
+def _getroute_by_evaluation(ctx, gr):
+    """Router.getRoute decided by partial evaluation (engine/minieval.py) on a model route table: three routes under GET whose
+    pattern objects are stand-ins - `.match(path)` / `.fullmatch(path)` records the call and answers a stand-in match (or None)
+    as the scenario says, `.groups()` of a match names the pattern it came from.  The loop may be written in any way (a helper per
+    entry, an explicit dict loop, positive or negative membership test).  None when outside the evaluator's fragment."""
+    from engine.minieval import MiniEval, Obj
+    key = ("getRoute", id(ctx.repo))
+    if key in _EV:
+        return _EV[key]
+    table = lambda: {"GET": [(Obj("P1"), ["a"], "R1"), (Obj("P2"), ["b", "c"], "R2"), (Obj("P3"), ["d", "e"], "R3")], "PUT": [(Obj("P9"), ["z"], "R9")]}
+    out = {"cases": [], "bad": []}
+    try:
+        for name, method, hits, want, want_calls in (
+                ("unknown method", "POST", {"P1", "P2", "P3", "P9"}, None, []),
+                ("no route matches", "GET", set(), None, ["P1", "P2", "P3"]),
+                ("first route matches", "GET", {"P1", "P3"}, ("R1", {"a": "P1#0"}), ["P1"]),
+                ("second and third match", "GET", {"P2", "P3"}, ("R2", {"b": "P2#0", "c": "P2#1"}), ["P1", "P2"]),
+                ("only the last matches", "GET", {"P3", "P9"}, ("R3", {"d": "P3#0", "e": "P3#1"}), ["P1", "P2", "P3"]),
+                ("other method's route", "PUT", {"P9"}, ("R9", {"z": "P9#0"}), ["P9"])):
+            calls = []
+
+            def match(base, *args, _how="match", **kwargs):
+                calls.append((base.name, _how, args, kwargs))
+                return Obj("M:" + base.name) if base.name in hits else None
+            ev = MiniEval(ctx.repo, ctx.folder, gr, self_attrs={"route_table": table()},
+                          stubs={"mplogger.error": lambda *a, **k: None, "mplogger.warning": lambda *a, **k: None, "mplogger.info": lambda *a, **k: None, "mplogger.debug": lambda *a, **k: None})
+            ev.method_stubs = {"match": match, "fullmatch": lambda b, *a, **k: match(b, *a, _how="fullmatch", **k),
+                               "search": lambda b, *a, **k: match(b, *a, _how="search", **k),
+                               "groups": lambda base, *a: tuple("%s#%d" % (base.name[2:], i) for i in range({"P1": 1, "P9": 1}.get(base.name[2:], 2))),
+                               "groupdict": lambda base, *a: {}}
+            r = ev.call([method, "/the/path"])
+            got = r[1] if r[0] == "return" else r
+            if isinstance(got, list):
+                got = tuple(got)
+            rec = {"case": name, "result": repr(got), "matched": [c[0] for c in calls]}
+            out["cases"].append(rec)
+            if r[0] != "return" or got != want:
+                out["bad"].append(dict(rec, kind="result", want=repr(want)))
+            if [c[0] for c in calls] != want_calls:
+                out["bad"].append(dict(rec, kind="order", want=want_calls))
+            if any(c[1] not in ("match", "fullmatch") or c[2] != ("/the/path",) or c[3] for c in calls):
+                out["bad"].append(dict(rec, kind="match call", calls=[repr(c[1:]) for c in calls]))
+    except Undecided:
+        out = None
+    _EV[key] = out
+    return out
 
 
 def fragments(ctx):
@@ -169,7 +220,12 @@ def r3(ctx):
         if kind in fr:
             ctx.check(count_groups(parse_regex(fr[kind][0])) == 0, "C16.R3", fi, "%s fragment has no capturing group" % kind, line=fr[kind][2].lineno)
     gr = ctx.fn("http_server:Router.getRoute")
-    z = [c for c in walk_own(gr.node) if isinstance(c, ast.Call) and norm(c.func) == "zip"]
+    ge = _getroute_by_evaluation(ctx, gr)
+    if ge is not None:
+        bad = [b for b in ge["bad"] if b["kind"] == "result"]
+        ctx.check(not bad, "C16.R3", gr, "getRoute pairs tokens with m.groups()", "getRoute evaluated (engine/minieval) on a model route table, %d scenarios: the answer is "
+                  "(route, {token: group}) of the first route whose pattern matches, the groups taken from that route's own match" % len(ge["cases"]), witness=bad[:2] or ge["cases"][:2])
+    z = [] if ge is not None else [c for c in walk_own(gr.node) if isinstance(c, ast.Call) and norm(c.func) == "zip"]
     ok = len(z) == 1 and len(z[0].args) == 2 and norm(z[0].args[0]) in ("tokens", "names") and isinstance(z[0].args[1], ast.Call) and isinstance(z[0].args[1].func, ast.Attribute) \
         and z[0].args[1].func.attr == "groups"
     if ok:
@@ -180,7 +236,8 @@ def r3(ctx):
         ms = [n for n in walk_own(gr.node) if isinstance(n, ast.Assign) and norm(n.targets[0]) == mv and isinstance(n.value, ast.Call) and isinstance(n.value.func, ast.Attribute)
               and n.value.func.attr in ("match", "fullmatch") and lp and norm(n.value.func.value) == norm(lp[0].target.elts[0])]
         ok = ok and len(ms) == 1
-    ctx.check(ok, "C16.R3", gr, "getRoute pairs tokens with m.groups()", witness=[norm(c) for c in z])
+    if ge is None:
+        ctx.check(ok, "C16.R3", gr, "getRoute pairs tokens with m.groups()", witness=[norm(c) for c in z])
     r = P("/x")
     ctx.check(r[0] == "ok" and not r[3] and not r[4], "C16.R3", fi, "patternToRegex returns (compiled pattern, tokens)", "re.compile(text) without flags",
               witness=list(r[3:]) if r[0] == "ok" else r)
@@ -202,8 +259,14 @@ def r4(ctx):
         f, e = first_chars(sub, UNIVERSE)
         ctx.check((lo, hi) == (0, 1) and f == {"/"}, "C16.R4", fi, "trailer = one optional '/'", witness={"min": lo, "max": hi, "FIRST": sorted(f)})
     gr = ctx.fn("http_server:Router.getRoute")
-    ms = [c for c in walk_own(gr.node) if isinstance(c, ast.Call) and isinstance(c.func, ast.Attribute) and c.func.attr in ("match", "search", "fullmatch", "findall")]
-    ctx.check(len(ms) == 1 and ms[0].func.attr in ("match", "fullmatch") and norm(ms[0].args[0]) == gr.params[2], "C16.R4", gr, "getRoute matches the request path from its start", witness=[norm(m) for m in ms])
+    ge = _getroute_by_evaluation(ctx, gr)
+    if ge is not None:
+        bad = [b for b in ge["bad"] if b["kind"] == "match call"]
+        ctx.check(not bad, "C16.R4", gr, "getRoute matches the request path from its start", "every pattern is applied with match / fullmatch to the path argument, unchanged",
+                  witness=bad[:2])
+    else:
+        ms = [c for c in walk_own(gr.node) if isinstance(c, ast.Call) and isinstance(c.func, ast.Attribute) and c.func.attr in ("match", "search", "fullmatch", "findall")]
+        ctx.check(len(ms) == 1 and ms[0].func.attr in ("match", "fullmatch") and norm(ms[0].args[0]) == gr.params[2], "C16.R4", gr, "getRoute matches the request path from its start", witness=[norm(m) for m in ms])
     # segments: the pattern is split on '/' and empty parts are dropped
     a_, b_, c_ = P("/x/y"), P("//x///y//"), P("x/y")
     ctx.check(a_[0] == "ok" and a_[:3] == b_[:3] == c_[:3], "C16.R4", fi, "pattern segments = non-empty parts of pattern.split('/')",
@@ -222,38 +285,73 @@ def r5(ctx):
     gr = ctx.fn("http_server:Router.getRoute")
     cfg = cfg_of(gr)
     from .common import sym_text
-    loops = [n for n in walk_own(gr.node) if isinstance(n, ast.For)]
-    ok = len(loops) == 1 and cfg.node_of(loops[0]) is not None and sym_text(gr, loops[0].iter, cfg.node_of(loops[0])) == "self.route_table[%s]" % gr.params[1]
-    ctx.check(ok, "C16.R5", gr, "getRoute iterates the request method's routes in order", witness=[norm(l.iter) for l in loops])
-    if ok:
-        rets = [n for n in ast.walk(loops[0]) if isinstance(n, ast.Return)]
-        conds = [(norm(t), p) for (t, p) in cfg.conditions_of(cfg.node_of(rets[0]).id)] if rets else []
-        mvars = [norm(n.targets[0]) for n in ast.walk(loops[0]) if isinstance(n, ast.Assign) and isinstance(n.value, ast.Call) and isinstance(n.value.func, ast.Attribute)
-                 and n.value.func.attr in ("match", "fullmatch")]
-        ok2 = len(rets) == 1 and len(mvars) == 1 and bool({(mvars[0], True), ("%s is not None" % mvars[0], True), ("%s is None" % mvars[0], False)} & set(conds)) and isinstance(rets[0].value, ast.Tuple) and norm(rets[0].value.elts[0]) == norm(loops[0].target.elts[2])
-        ctx.check(ok2, "C16.R5", gr, "the first matching route is returned at once", witness=conds)
-        # every route of the method is tried against the path: the match executes in every iteration (no pre-filter may skip
-        # a route - the pattern alone decides)
-        mcalls = [c for c in ast.walk(loops[0]) if isinstance(c, ast.Call) and isinstance(c.func, ast.Attribute) and c.func.attr in ("match", "fullmatch")]
-        if mcalls:
-            loop_conds = {(id(t), p) for (t, p) in cfg.conditions_of(cfg.node_of(loops[0]).id)}
-            extra = [(norm(t), p) for (t, p) in cfg.conditions_of(cfg.node_of(mcalls[0]).id, loop_exits=False) if (id(t), p) not in loop_conds]
+    ge = _getroute_by_evaluation(ctx, gr)
+    if ge is not None:
+        why = "getRoute evaluated (engine/minieval) on a model route table, %d scenarios" % len(ge["cases"])
+        order = [b for b in ge["bad"] if b["kind"] == "order"]
+        ctx.check(not order, "C16.R5", gr, "getRoute iterates the request method's routes in order", why + ": the patterns of the request method's list are tried first to last, "
+                  "up to the first that matches", witness=order[:2] or ge["cases"][:2])
+        res = [b for b in ge["bad"] if b["kind"] == "result" and b["want"] != "None"]
+        ctx.check(not res and not order, "C16.R5", gr, "the first matching route is returned at once", why, witness=(res + order)[:2])
+        none = [b for b in ge["bad"] if b["kind"] == "result" and b["want"] == "None"]
+        ctx.check(not none, "C16.R5", gr, "no match / unknown method -> None", why, witness=none[:2])
+        ctx.check(not [b for b in none if b["case"] == "unknown method"], "C16.R5", gr, "unknown methods are refused before the lookup", why)
+        # every route of the method is tried against the path: the match executes in every iteration (no pre-filter may skip a
+        # route - the pattern alone decides).  Structural, for any arrangement of the loop: the match call is controlled by
+        # nothing but the loop itself and what controls the loop
+        mcalls = [c for c in walk_own(gr.node) if isinstance(c, ast.Call) and isinstance(c.func, ast.Attribute) and c.func.attr in ("match", "fullmatch")]
+        for mc in mcalls:
+            lp = [p_ for p_ in _parents_of(mc, gr.node) if isinstance(p_, (ast.For, ast.While))]
+            if not lp or cfg.node_of(lp[0]) is None or cfg.node_of(mc) is None:
+                ctx.undecided("C16.R5", gr, "the pattern match of getRoute is not inside a loop")
+            loop_conds = {(id(t), p) for (t, p) in cfg.conditions_of(cfg.node_of(lp[0]).id)}
+            extra = [(norm(t), p) for (t, p) in cfg.conditions_of(cfg.node_of(mc).id, loop_exits=False) if (id(t), p) not in loop_conds]
             ctx.check(not extra, "C16.R5", gr, "every registered route of the method is matched against the path (no pre-filter)",
                       "a route skipped by a shortcut test never gets to match: a request the documented pattern accepts is answered 404", witness=extra)
-        others = [n for n in walk_own(gr.node) if isinstance(n, ast.Return) and n not in rets]
-        ctx.check(all(norm(o.value) == "None" for o in others) and len(others) == 2, "C16.R5", gr, "no match / unknown method -> None", witness=[norm(o) for o in others])
-        g = [n for n in walk_own(gr.node) if isinstance(n, ast.If) and norm(n.test) == "%s not in self.route_table" % gr.params[1]]
-        # or: the lookup itself is inside try/except KeyError that returns None
-        from .common import enclosing_trys
-        lk = [n for n in walk_own(gr.node) if isinstance(n, ast.Subscript) and norm(n) == "self.route_table[%s]" % gr.params[1] and isinstance(n.ctx, ast.Load)]
-        caught = bool(lk) and all(any(any(h.type is not None and norm(h.type) in ("KeyError", "LookupError") and any(isinstance(x, ast.Return) and norm(x.value) == "None" for x in h.body)
-                                          for h in t.handlers) for t in enclosing_trys(n)) for n in lk)
-        ctx.check(len(g) == 1 or caught, "C16.R5", gr, "unknown methods are refused before the lookup")
+    else:
+        loops = [n for n in walk_own(gr.node) if isinstance(n, ast.For)]
+        ok = len(loops) == 1 and cfg.node_of(loops[0]) is not None and sym_text(gr, loops[0].iter, cfg.node_of(loops[0])) == "self.route_table[%s]" % gr.params[1]
+        ctx.check(ok, "C16.R5", gr, "getRoute iterates the request method's routes in order", witness=[norm(l.iter) for l in loops])
+        if ok:
+            rets = [n for n in ast.walk(loops[0]) if isinstance(n, ast.Return)]
+            conds = [(norm(t), p) for (t, p) in cfg.conditions_of(cfg.node_of(rets[0]).id)] if rets else []
+            mvars = [norm(n.targets[0]) for n in ast.walk(loops[0]) if isinstance(n, ast.Assign) and isinstance(n.value, ast.Call) and isinstance(n.value.func, ast.Attribute)
+                     and n.value.func.attr in ("match", "fullmatch")]
+            ok2 = len(rets) == 1 and len(mvars) == 1 and bool({(mvars[0], True), ("%s is not None" % mvars[0], True), ("%s is None" % mvars[0], False)} & set(conds)) and isinstance(rets[0].value, ast.Tuple) and norm(rets[0].value.elts[0]) == norm(loops[0].target.elts[2])
+            ctx.check(ok2, "C16.R5", gr, "the first matching route is returned at once", witness=conds)
+            # every route of the method is tried against the path: the match executes in every iteration (no pre-filter may skip
+            # a route - the pattern alone decides)
+            mcalls = [c for c in ast.walk(loops[0]) if isinstance(c, ast.Call) and isinstance(c.func, ast.Attribute) and c.func.attr in ("match", "fullmatch")]
+            if mcalls:
+                loop_conds = {(id(t), p) for (t, p) in cfg.conditions_of(cfg.node_of(loops[0]).id)}
+                extra = [(norm(t), p) for (t, p) in cfg.conditions_of(cfg.node_of(mcalls[0]).id, loop_exits=False) if (id(t), p) not in loop_conds]
+                ctx.check(not extra, "C16.R5", gr, "every registered route of the method is matched against the path (no pre-filter)",
+                          "a route skipped by a shortcut test never gets to match: a request the documented pattern accepts is answered 404", witness=extra)
+            others = [n for n in walk_own(gr.node) if isinstance(n, ast.Return) and n not in rets]
+            ctx.check(all(norm(o.value) == "None" for o in others) and len(others) == 2, "C16.R5", gr, "no match / unknown method -> None", witness=[norm(o) for o in others])
+            g = [n for n in walk_own(gr.node) if isinstance(n, ast.If) and norm(n.test) == "%s not in self.route_table" % gr.params[1]]
+            # or: the lookup itself is inside try/except KeyError that returns None
+            from .common import enclosing_trys
+            lk = [n for n in walk_own(gr.node) if isinstance(n, ast.Subscript) and norm(n) == "self.route_table[%s]" % gr.params[1] and isinstance(n.ctx, ast.Load)]
+            caught = bool(lk) and all(any(any(h.type is not None and norm(h.type) in ("KeyError", "LookupError") and any(isinstance(x, ast.Return) and norm(x.value) == "None" for x in h.body)
+                                              for h in t.handlers) for t in enclosing_trys(n)) for n in lk)
+            ctx.check(len(g) == 1 or caught, "C16.R5", gr, "unknown methods are refused before the lookup")
     dp = ctx.fn("http_server:Router.dispatch")
-    g = [n for n in walk_own(dp.node) if isinstance(n, ast.If) and norm(n.test) == "not result"]
-    ok = len(g) == 1 and any("404" in norm(s) for s in g[0].body)
-    ctx.check(ok, "C16.R5", dp, "a path that matches nothing yields 404", witness=[norm(s)[:70] for x in g for s in x.body])
     call = [c for c in calls_named(dp, "getRoute")]
+    dcfg = cfg_of(dp)
+    from engine.cond import CondCtx
+    dcc = CondCtx(ctx.folder, dp.module, dp.cls)
+    rv = norm(call[0]._parent.targets[0]) if len(call) == 1 and isinstance(getattr(call[0], "_parent", None), ast.Assign) and len(call[0]._parent.targets) == 1 else None
+    nf = [n for n in dcfg.stmts((ast.Assign, ast.Return, ast.Expr)) if any(isinstance(x, ast.Call) and any(isinstance(a, ast.Constant) and a.value == 404 for a in list(x.args) + [k.value for k in x.keywords])
+                                                                         for x in ast.walk(n.ast))]
+    ok = rv is not None and len(nf) == 1
+    if ok:
+        falsy = {repr(l) for l in dcc.literal(ast.Name(id=rv, ctx=ast.Load()), False)}
+        have = {repr(l) for (t, p) in dcfg.conditions_of(nf[0].id) for l in dcc.literal(t, p)}
+        none_ = {repr(l) for l in dcc.literal(ast.parse("%s is None" % rv, mode="eval").body, True)}
+        ok = bool(falsy) and (falsy <= have or (bool(none_) and none_ <= have))
+    ctx.check(ok, "C16.R5", dp, "a path that matches nothing yields 404", "the 404 answer is built exactly where the looked-up route is absent",
+              witness=[norm(n.ast)[:70] for n in nf])
     ctx.check(len(call) == 1 and [norm(a) for a in call[0].args] == ["request.method", "request.path"], "C16.R5", dp, "dispatch looks the route up by request method and path")
     mt = [n for n in walk_own(dp.node) if isinstance(n, ast.Assign) and norm(n.targets[0]) == "request.matches"]
     ctx.check(len(mt) == 1 and norm(mt[0].value) == "matches", "C16.R5", dp, "bound values are reported on the request")
